@@ -1,6 +1,8 @@
 """C17 Local operators are per-cell functions of the layers, NaN-absorbing."""
 import math
 
+import numpy as _np
+
 from sx import symnp, symxr, core as sc
 from sx.harness import TOL64
 from .common import cells, And, Or, Not, Implies, ite, isnan, same, vals, Skip, Sum, coords_affine
@@ -52,7 +54,23 @@ def jobs(tier, seed):
             if tier == 'quick' and op in ('rank', 'combine') and pos not in ((0, 2), (1, 0)):
                 continue
             out.append({'name': '%s-2x3-cell%d%d' % (op, pos[0], pos[1]), 'op': op, 'func': 'max', 'layers': 3, 'shape': [2, 3], 'sym': list(pos), 'data_vars': None, 'ref': 0})
+    # memory layout of the layers must not matter: every layer Fortran-ordered (np.nditer's default order follows memory), and a mix
+    for lay in ('F', 'mixed'):
+        for op in ('cell_stats', 'lowest_position', 'rank', 'combine', 'equal_frequency'):
+            out.append({'name': '%s-2x3-layout-%s' % (op, lay), 'op': op, 'func': 'max', 'layers': 2 if op == 'combine' else 3, 'shape': [2, 3], 'sym': [0, 1], 'data_vars': None, 'ref': 0,
+                        'layout': lay})
     return out
+
+
+def _forder(arr):
+    h, w = arr.shape
+    idx = _np.arange(h * w).reshape(w, h).T
+    buf = [None] * (h * w)
+    for (y, x) in cells((h, w)):
+        buf[int(idx[y, x])] = arr[y, x]
+    a = symnp.SymArray(buf, idx, arr.dtype)
+    a._sx_layout = 'F'
+    return a
 
 
 def _dataset(ctx, job):
@@ -69,6 +87,9 @@ def _dataset(ctx, job):
             py, px = job['sym']
             a = symnp.asarray([[float((li + 1) * 10 + ((y * 7 + x * 3 + li * 5) % 4)) for x in range(w)] for y in range(h)], 'float64').copy()
             a[py, px] = ctx.real('%s_cell' % nm, nan=True)
+        lay = job.get('layout')
+        if lay == 'F' or (lay == 'mixed' and li % 2 == 0):
+            a = _forder(a)
         raw[nm] = a
         layers[nm] = symxr.DataArray(a, dims=('y', 'x'), coords={'y': coords_affine(h, float(h - 1), -1.0), 'x': coords_affine(w, 0.0, 1.0)}, name=nm)
     return names, raw, symxr.Dataset(layers)
